@@ -13,7 +13,7 @@
 #include <stdlib.h>
 #include <string.h>
 #define ZSTD_STATIC_LINKING_ONLY
-#include "../../repo/lib/compress/zstd_compress_internal.h"
+#include "zstd_compress_internal.h"   /* found through -I<repo>/… (tools/build.py), so that ZV_REPO can point at another checkout */
 
 #define ZV_TR_MAX 256
 static struct { char k; size_t n; } zv_trace[ZV_TR_MAX]; static int zv_ntrace;
@@ -29,7 +29,7 @@ static BYTE* zv_buf(ZSTD_cwksp* ws, size_t n) { zv_tr('b', n); return ZSTD_cwksp
 #define ZSTD_cwksp_reserve_aligned64 zv_ali
 #define ZSTD_cwksp_reserve_aligned_init_once zv_ini
 #define ZSTD_cwksp_reserve_buffer zv_buf
-#include "../../repo/lib/compress/zstd_compress.c"
+#include "zstd_compress.c"   /* found through -I<repo>/… (tools/build.py), so that ZV_REPO can point at another checkout */
 #undef ZSTD_cwksp_reserve_object
 #undef ZSTD_cwksp_reserve_table
 #undef ZSTD_cwksp_reserve_aligned64
